@@ -926,6 +926,18 @@ def check_type(S, j, op, o, text, allowed_extra=()):
                 ok = 0 <= col <= len(ln) + 1
         if not ok:
             S.viol.add("C16", "parse_error_position", "bad_position", o["where"], "line=%r column=%r for a text of %d lines" % (line, col, len(lines)), op=j)
+            return
+        # the text before the first corrupted character is a prefix of a valid program, so
+        # the offending token cannot lie on an earlier line (an unterminated block comment is
+        # reported at its opener, which may precede the corruption: such texts are skipped)
+        fd = op.get("fault") or {}
+        at = fd.get("at", fd.get("a"))
+        if isinstance(at, int) and isinstance(line, int) and "/*" not in text and "import" not in text and op.get("via") not in ("file", "run_file", "header_file"):
+            first_line = text.count("\n", 0, min(at, len(text))) + 1
+            if line < first_line:
+                S.viol.add("C16", "parse_error_position", "before_the_fault", o["where"], "error reported on line %d, the text is intact up to line %d" % (line, first_line), op=j)
+            else:
+                S.probe("position_checked_against_fault_offset")
         return
     if k in allowed_extra:
         return
